@@ -36,9 +36,9 @@ theorem fpadd_comm' (a b : Nat) (ha : a < 2^32) (hb : b < 2^32)
     · rw [if_neg h1, if_pos (by omega)]
   · subst h; rfl
 
-/-- the datapath of FPAdder_SP after the swap, as arithmetic on the fields (A = larger magnitude, exponent gap < 32) -/
-theorem fpaddCore_eq (A B : Nat) (hA : 1 ≤ expOf A) (hB : 1 ≤ expOf B) (hle : expOf B ≤ expOf A)
-    (hgap : expOf A - expOf B < 32) :
+/-- the datapath of FPAdder_SP after the swap, as arithmetic on the fields (A = larger magnitude), EVERY exponent gap
+    (for gaps ≥ 24 the aligned operand `mB / 2^d` is 0) -/
+theorem fpaddCore_eq (A B : Nat) (hA : 1 ≤ expOf A) (hB : 1 ≤ expOf B) (hle : expOf B ≤ expOf A) :
     let mA := 2^23 + fracOf A
     let mB := 2^23 + fracOf B
     let mb3 := mB / 2^(expOf A - expOf B)
@@ -58,9 +58,10 @@ theorem fpaddCore_eq (A B : Nat) (hA : 1 ≤ expOf A) (hB : 1 ≤ expOf B) (hle 
   simp only [hda, hdb, show b2n true = 1 from rfl, Nat.one_mul]
   have hmB : mB < 2^24 := by show 2^23 + fracOf B < 2^24; omega
   have hmA : mA < 2^24 := by show 2^23 + fracOf A < 2^24; omega
-  have hed : Leaf.sub 5 (expOf A) (expOf B) = expOf A - expOf B := by
-    rw [sub_nat 5 _ _ hle]; exact Nat.mod_eq_of_lt (by simpa using hgap)
-  rw [hed, C07.shiftRight_logical_spec 24 5 24 _ _ hmB (by simpa using hgap)]
+  have hgap : expOf A - expOf B < 2^8 := by omega
+  have hed : Leaf.sub 8 (expOf A) (expOf B) = expOf A - expOf B := by
+    rw [sub_nat 8 _ _ hle]; exact Nat.mod_eq_of_lt hgap
+  rw [hed, C07.shiftRight_logical_spec 24 8 24 _ _ hmB hgap]
   have hmb3 : ArithSpec.shiftRightL 24 (2 ^ 23 + fracOf B) (expOf A - expOf B) = mb3 := by
     unfold ArithSpec.shiftRightL
     apply Nat.mod_eq_of_lt
